@@ -157,6 +157,7 @@ def run(prog, rep, tier='quick'):
     rep.rule('O3-getter-recomputes', 'paths of the psd getter that skip self() are only feasible when psd is not None '
              'and modified is not True')
     rep.rule('O3-call-assigns-psd', 'every non-raising path of C.__call__ assigns the psd cache')
+    rep.rule('O6-N-follows-data', 'every store to the data length N is on a path that stores new data and takes its size')
     rep.rule('O4-range-paired', 'every path writing __NFFT (resp. __sampling) also updates _range.N (resp. '
              '_range.sampling / constructs the Range with it); Range recomputes df = sampling/N after each change')
     rep.trusted += ['python attribute/property semantics incl. private-name mangling',
@@ -408,6 +409,58 @@ def run(prog, rep, tier='quick'):
                                         paired = True
                                         break
                             record(f, field, label, paired, p, ws[-1])
+    # O4b: a method other than the constructor that installs a *new* Range must build it from the current NFFT and
+    # sampling; O6: the data length N changes only together with the data
+    n_o6 = 0
+    for D in hier:
+        for mname, mnode in D.methods.items():
+            f = D.find_method(mname)
+            direct = {mangle(D.name, t.attr) for t in ast.walk(mnode)
+                      if isinstance(t, ast.Attribute) and isinstance(t.ctx, ast.Store)
+                      and isinstance(t.value, ast.Name) and t.value.id == 'self'}
+            if not (direct & {'_range', '_Spectrum__N'}):
+                continue
+            try:
+                paths = ts.method_paths(D, f)
+            except ExplosionError:
+                paths = []
+                for _st, ps in ts.statement_paths(D, f):
+                    paths += ps or []
+            for p in paths:
+                if p.end == 'raise':
+                    continue
+                for e in p.events:
+                    if e[0] == 'wr' and e[1] == '_range' and len(e) > 4 and e[4] == f.qname and mname != '__init__':
+                        v = e[2]
+                        if not any('Range' in c for c in v.calls):
+                            continue
+                        a0 = v.argv[0] if v.argv else None
+                        okN = a0 is not None and ('_Spectrum__NFFT' in a0.fields or 'NFFT' in a0.getters)
+                        key = ('O4b', f.qname, okN)
+                        if key in seen:
+                            continue
+                        seen.add(key)
+                        if okN:
+                            rep.proved('O4-range-paired', f.qname, 'installs a new Range', 'built from the current NFFT', loc(f.mod, f.node))
+                        else:
+                            rep.violation('O4-range-paired', f.qname, 'installs a new Range',
+                                          'the frequency Range is rebuilt with a length that is not the current NFFT: df and '
+                                          'frequencies() no longer match the PSD', loc(f.mod, f.node), p.describe())
+                    if e[0] == 'wr' and e[1] == '_Spectrum__N' and not _is_const(e[2], None) and len(e) > 4 and e[4] == f.qname:
+                        n_o6 += 1
+                        v = e[2]
+                        ok = ('data' in v.getters or '_Spectrum__data' in v.fields) and p.has('wr', '_Spectrum__data')
+                        key = ('O6', f.qname, ok)
+                        if key in seen:
+                            continue
+                        seen.add(key)
+                        if ok:
+                            rep.proved('O6-N-follows-data', f.qname, 'writes _Spectrum__N', 'N is the size of the data stored on the same path', loc(f.mod, f.node))
+                        else:
+                            rep.violation('O6-N-follows-data', f.qname, 'writes _Spectrum__N',
+                                          'the data length N is overwritten without storing new data (N must equal data.size: '
+                                          'estimators normalise by it)', loc(f.mod, f.node), p.describe())
+    rep.floor('writes of the data length N', n_o6, 1)
     # Range itself: df recomputed from the current N and sampling after each change
     R = prog.cls('psd', 'Range')
     n_range = 0
